@@ -14,7 +14,8 @@
    column a frame-level operation is currently applied to):
      [e |-> "col",   c |-> name]                    T[name]
      [e |-> "self"]                                 the current column (fmap)
-     [e |-> "idx"]                                  T.index (as a Series / array)
+     [e |-> "idx"]                                  T.index            (an array: carries no name)
+     [e |-> "idxs"]                                 T.index.to_series() (an unnamed Series)
      [e |-> "const", v |-> i]                       a scalar
      [e |-> "bin",   f |-> op, l |-> x, r |-> y]    x op y:  add sub mul | lt le gt ge eq ne | and or xor
      [e |-> "not" | "neg" | "abs" | "isna" | "notna", x |-> x]
@@ -36,10 +37,14 @@
                                                        T[[names]] under a frame-level
                                                        elementwise operation (T2 + 1, T2.fillna(0),
                                                        T2.where(T2 > 0, 5), T2.astype(..), ...)
+     [op |-> "fmapcol", cols |-> <<names>>, x |-> expr over "self", c |-> name]
+                                                       one column of the former: T[[names]].where(..)[c]
      [op |-> "rename",  ren |-> <<<<old, new>>, ...>>] T.rename(columns = {...})
      [op |-> "head",    n |-> n, np |-> k | -1]        T.head(n, npartitions = k)
      [op |-> "tail",    n |-> n]                       T.tail(n)           (last partition only)
      [op |-> "loc",     a |-> i | NA, b |-> i | NA]    T.loc[a:b]          (sorted index)
+     [op |-> "seq",     first |-> op, second |-> op]   second applied to the result of first (a
+                                                       two-step program: dask optimizes it as a whole)
    OPERATIONS on two tables L, R with their own indexes and partitionings:
      [op |-> "abin",  f |-> arith, lc |-> c, rc |-> d]      L[c] f R[d]        (outer alignment)
      [op |-> "afbin", f |-> arith, cols |-> <<names>>]      L[[names]] f R[[names]]
@@ -70,7 +75,8 @@ Eval(T, x, self) ==
   IN
   CASE x.e = "col"   -> ColOf(T, x.c)
     [] x.e = "self"  -> ColOf(T, self)
-    [] x.e = "idx"   -> [name |-> "", kind |-> "i", err |-> FALSE, vals |-> TIdx(T)]
+    [] x.e = "idx"   -> [name |-> "#", kind |-> "i", err |-> FALSE, vals |-> TIdx(T)]
+    [] x.e = "idxs"  -> [name |-> "", kind |-> "i", err |-> FALSE, vals |-> TIdx(T)]
     [] x.e = "const" -> [name |-> "#", kind |-> "i", err |-> FALSE, vals |-> [k \in 1..n |-> x.v]]
     [] x.e = "bin"   ->
          LET l == Eval(T, x.l, self)
@@ -134,8 +140,11 @@ Loc(T, a, b) ==
   TakeRows(T, PosSeq(NRows(T), LAMBDA k : /\ (a = NA \/ a <= T.rows[k].idx)
                                           /\ (b = NA \/ T.rows[k].idx <= b)))
 
+RECURSIVE Apply(_, _, _)
 Apply(T, layout, o) ==
-  CASE o.op = "series"  -> SeriesOf(T, Eval(T, o.x, ""))
+  CASE o.op = "seq"     -> LET mid == Apply(T, layout, o.first)
+                           IN IF mid.err THEN mid ELSE Apply(mid, <<>>, o.second)
+    [] o.op = "series"  -> SeriesOf(T, Eval(T, o.x, ""))
     [] o.op = "filter"  -> LET p == Eval(T, o.p, "") IN [TakeRows(T, TruePos(T, p)) EXCEPT !.err = p.err]
     [] o.op = "sfilter" -> LET p == Eval(T, o.p, "")
                                s == SeriesOf(T, Eval(T, o.x, ""))
@@ -143,6 +152,7 @@ Apply(T, layout, o) ==
     [] o.op = "project" -> Project(T, o.cols)
     [] o.op = "assign"  -> Assign(T, o.name, Eval(T, o.x, ""))
     [] o.op = "fmap"    -> FrameOfCols(T, [j \in DOMAIN o.cols |-> [Eval(T, o.x, o.cols[j]) EXCEPT !.name = o.cols[j]]])
+    [] o.op = "fmapcol" -> SeriesOf(T, [Eval(T, o.x, o.c) EXCEPT !.name = o.c])
     [] o.op = "rename"  -> Rename(T, o.ren)
     [] o.op = "head"    -> HeadRows(T, layout, o.n, o.np)
     [] o.op = "tail"    -> TailRows(T, layout, o.n)
